@@ -1,7 +1,7 @@
 # contracts -- sidecar contracts on the real pyscsi functions (the repository is never edited for them)
 import importlib
 
-MODULES = ["cdb_commands"]
+MODULES = ["cdb_commands", "opcodes"]
 
 
 def load_all():
